@@ -1,6 +1,6 @@
 (* Extract.v — extraction of the executable model to OCaml. ExtrOcamlBasic only: N, positive, nat
    stay Coq datatypes. *)
-From TungModel Require Import Base Coding Mask Header Frame Utf8 World Message Codec Protocol.
+From TungModel Require Import Base Coding Mask Header Frame Utf8 World Message Codec Protocol Sha1 Handshake.
 Require Extraction.
 Require Import ExtrOcamlBasic.
 Extraction Language OCaml.
@@ -8,4 +8,6 @@ Extraction "model.ml"
   close_of_u16 close_to_u16 close_allowed opcode_of_u8 opcode_to_u8
   header_parse header_format header_len frame_len frame_format frame_format_into_buf frame_close
   mask_fast32 xor_cyc from_utf8 collector_extend collector_into_string collector_new
-  ctx_new run_ops mkWorld mkConfig wire queued.
+  ctx_new run_ops mkWorld mkConfig wire queued
+  sha1 base64 derive_accept_key create_parts write_response generate_request into_client_request
+  server_handshake client_handshake attack_check verify_response.
